@@ -19,6 +19,9 @@ pub struct RustDocument {
     pub(crate) target_namespaces: Vec<Rc<Namespace>>,
     pub(crate) current_target_namespace: Option<Rc<Namespace>>,
     pub(crate) nodes: Vec<Rc<RustNode>>,
+    /// nodes the importing document had already read when this (imported) document was started;
+    /// they can be referred to, but they are not part of this document
+    pub(crate) known_nodes: Vec<Rc<RustNode>>,
     pub(crate) soap_messages: Vec<Rc<SoapMessage>>,
     pub(crate) soap_ports: Vec<Rc<SoapPort>>,
     pub(crate) soap_bindings: Vec<Rc<SoapBinding>>,
@@ -27,15 +30,20 @@ pub struct RustDocument {
 
 impl RustDocument {
     pub fn init(doc: &Document) -> Self {
-        Self::init_with_known_namespaces(doc, &[])
+        Self::init_with_known_namespaces(doc, &[], &[])
     }
 
     /// Start the document of an imported file. It knows the namespaces the importing document has
     /// already met, so a namespace keeps the one abbreviation (and module) it was given first and
     /// a new namespace gets an abbreviation that is not in use anywhere in the output.
-    pub fn init_with_known_namespaces(doc: &Document, known_namespaces: &[Rc<Namespace>]) -> Self {
+    pub fn init_with_known_namespaces(
+        doc: &Document,
+        known_namespaces: &[Rc<Namespace>],
+        known_nodes: &[Rc<RustNode>],
+    ) -> Self {
         let mut me = Self::empty();
         me.namespaces.extend(known_namespaces.iter().cloned());
+        me.known_nodes.extend(known_nodes.iter().cloned());
         // parse namespaces on the root element
         collect_namespaces_on_node(doc.root_element(), &mut me);
         me
@@ -65,6 +73,7 @@ impl RustDocument {
             target_namespaces: Vec::new(),
             current_target_namespace: None,
             nodes: Vec::new(),
+            known_nodes: Vec::new(),
             soap_messages: Vec::new(),
             soap_ports: Vec::new(),
             soap_bindings: Vec::new(),
@@ -152,7 +161,7 @@ impl RustDocument {
         xml_name: &str,
         namespace: Option<&Namespace>,
     ) -> Option<Rc<RustNode>> {
-        let rust_node = self.nodes.iter().find(|node| {
+        let rust_node = self.nodes.iter().chain(self.known_nodes.iter()).find(|node| {
             node.rust_type.xml_name().is_some_and(|n| n == xml_name) && node.in_namespace.as_deref() == namespace
         });
 
